@@ -1007,7 +1007,7 @@ func scanNumber(l *lexer) (typ itemType, ok bool) {
 			// No signs for hexadecimals.
 			return
 		}
-		l.acceptRun("0x")
+		l.pos += 2 // "0x"
 		if !l.acceptRun(hexDigits) {
 			// Requires at least one digit.
 			return
